@@ -10,6 +10,7 @@ package asserts_test
 // validity boundaries of the keys.
 
 import (
+	"bytes"
 	"fmt"
 	"regexp"
 	"sort"
@@ -57,6 +58,56 @@ type verifView struct {
 	cur      map[string]int  // identity -> highest revision accepted
 	builtin  map[string]bool // identities of trusted assertions
 	framed   map[string]bool // bytes keys accepted by Add with a re-framed signature
+	// base is set for the view of a database stacked on another one
+	// ((*Database).WithStackedBackstore): it finds in its own backstore
+	// first, then in the base database's.
+	base *verifView
+}
+
+func verifNewView(name string, base *verifView) *verifView {
+	return &verifView{name: name, base: base, keys: map[string]*verifKeyView{}, accounts: map[string]bool{},
+		cur: map[string]int{}, builtin: map[string]bool{}, framed: map[string]bool{}}
+}
+
+// key: the account-key revision this database itself finds for a key id.
+func (v *verifView) key(id string) *verifKeyView {
+	if kv := v.keys[id]; kv != nil {
+		return kv
+	}
+	if v.base != nil {
+		return v.base.key(id)
+	}
+	return nil
+}
+
+func (v *verifView) hasAccount(id string) bool {
+	return v.accounts[id] || (v.base != nil && v.base.hasAccount(id))
+}
+
+func (v *verifView) isBuiltin(id string) bool {
+	return v.builtin[id] || (v.base != nil && v.base.isBuiltin(id))
+}
+
+// maxRev: the highest revision of an identity in this database or the ones
+// below it (an Add must exceed all of them).
+func (v *verifView) maxRev(id string) (int, bool) {
+	r, have := v.cur[id]
+	if v.base != nil {
+		if br, bhave := v.base.maxRev(id); bhave && (!have || br > r) {
+			r, have = br, true
+		}
+	}
+	return r, have
+}
+
+func (v *verifView) wasFramed(bk string) bool {
+	return v.framed[bk] || (v.base != nil && v.base.wasFramed(bk))
+}
+
+// verifTarget is one database deliveries go to.
+type verifTarget struct {
+	v  *verifView
+	db func() *asserts.Database
 }
 
 type verifC18 struct {
@@ -64,7 +115,10 @@ type verifC18 struct {
 	keys     map[string]*verifKey
 	led      *verifLedger
 	st       *verifStores
-	views    []*verifView
+	views    []*verifView // base views (mem, fs), then the stacked ones
+	targets  []verifTarget
+	stackBS  []asserts.Backstore // own backstores of the stacked databases
+	stacked  []*asserts.Database
 	faults   bool
 	owner    map[string]string       // key label -> account id
 	akLatest map[string]*verifSigned // key label -> latest account-key signed for it
@@ -77,6 +131,14 @@ type verifC18 struct {
 }
 
 func (w *verifC18) now() time.Time { return time.Now().UTC() }
+
+// restack (re)creates the stacked databases over the current base ones,
+// keeping their own backstores.
+func (w *verifC18) restack() {
+	for i, bs := range w.stackBS {
+		w.stacked[i] = w.st.dbs()[i].WithStackedBackstore(bs)
+	}
+}
 
 // stop: a run ends at its first violation, except for the re-framed
 // signature shape (finding F4), which the model follows exactly (the stored
@@ -201,14 +263,33 @@ func verifRunC18(c *verifsim.Ctx) {
 	w.st = verifOpenStores(c, []asserts.Assertion{acctCanonical.a, akRoot.a, akT2.a}, nil)
 	defer w.st.close()
 	for _, n := range w.st.names {
-		v := &verifView{name: n, keys: map[string]*verifKeyView{}, accounts: map[string]bool{"canonical": true},
-			cur: map[string]int{}, builtin: map[string]bool{}, framed: map[string]bool{}}
+		v := verifNewView(n, nil)
+		v.accounts["canonical"] = true
 		for _, e := range []*verifSigned{akRoot, akT2} {
 			v.keys[e.akKey.id] = &verifKeyView{since: e.akSince, until: e.akUntil, cons: e.akCons, account: e.akAccount}
 			v.builtin[e.id] = true
 		}
 		v.builtin[acctCanonical.id] = true
 		w.views = append(w.views, v)
+	}
+	w.targets = []verifTarget{
+		{w.views[0], func() *asserts.Database { return w.st.mem }},
+		{w.views[1], func() *asserts.Database { return w.st.fs }},
+	}
+	// in half of the runs each database also has one stacked on it
+	// (WithStackedBackstore over a fresh memory backstore), which later
+	// gets deliveries - key re-issues in particular - the base never sees
+	if c.Draw("stacked", 2) == 1 {
+		for i := range w.st.names {
+			w.stackBS = append(w.stackBS, asserts.NewMemoryBackstore())
+			w.stacked = append(w.stacked, nil)
+			sv := verifNewView(w.st.names[i]+"+stacked", w.views[i])
+			w.views = append(w.views, sv)
+			i := i
+			w.targets = append(w.targets, verifTarget{sv, func() *asserts.Database { return w.stacked[i] }})
+		}
+		w.restack()
+		c.Logf("stacked databases on mem and fs")
 	}
 
 	// initial population, delivered like everything else
@@ -254,6 +335,7 @@ func verifRunC18(c *verifsim.Ctx) {
 			case 1:
 				c.Logf("restart fs database")
 				w.st.reopenFS()
+				w.restack()
 				w.fault("restart")
 			case 2:
 				w.findStored()
@@ -655,23 +737,99 @@ func (w *verifC18) deliver(e *verifSigned, why string) {
 		}
 		return
 	}
-	exact, same := w.led.lookup(d)
+	// what was delivered, fixed at the moment of decoding
+	dl := &verifDelivered{d: d, how: how}
+	dl.exact, dl.same = w.led.lookup(d)
+	dcontent, dsig := d.Signature()
+	dl.sigDec, _ = verifDecodeSig(dsig)
+	dl.bk = verifBytesKey(dcontent, dl.sigDec)
+
+	// the caller reuses its read buffer: the very slice that was decoded
+	// is overwritten before (or after) the database sees the assertion
+	reuse, reuseAfter := "", false
+	if w.faults && why != "setup" {
+		switch c.Draw("buffer-reuse", 6) {
+		case 1: // the genuine encoding the delivery was derived from
+			copy(data, e.enc)
+			reuse = "genuine-twin"
+		case 2: // some other signed assertion
+			o := w.led.list[c.Draw("reuse-with", len(w.led.list))]
+			copy(data, o.enc)
+			reuse = "other-assertion"
+		case 3:
+			for i := range data {
+				data[i] = 'X'
+			}
+			reuse = "garbage"
+		case 4:
+			reuseAfter = true
+		}
+		if reuse != "" {
+			w.fault("read-buffer-reused-before-check")
+		}
+	}
+
 	modeName := []string{"add", "check", "check+add"}[mode]
+	targets := w.pickTargets(why)
 	var results []string
-	for i, db := range w.st.dbs() {
-		v := w.views[i]
+	for _, t := range targets {
+		db, v := t.db(), t.v
 		if mode != 0 {
 			err := db.Check(d)
-			w.judge(v, d, exact, same, how, "check", err)
+			w.judge(v, dl, "check", err)
 			results = append(results, v.name+".check="+verifErrClass(err))
 		}
 		if mode != 1 {
 			err := db.Add(d)
-			w.judge(v, d, exact, same, how, "add", err)
+			w.judge(v, dl, "add", err)
 			results = append(results, v.name+".add="+verifErrClass(err))
 		}
 	}
+	if reuseAfter {
+		copy(data, bytes.Repeat([]byte("Y"), len(data)))
+		reuse = "garbage-after-the-calls"
+		w.fault("read-buffer-reused-after-add")
+	}
+	if reuse != "" {
+		how += " buffer-reused(" + reuse + ")"
+	}
 	c.Logf("deliver(%s) %s %s via %s %s at T0+%s -> %s", why, e.label, how, route, modeName, verifOff(w.now()), strings.Join(results, " "))
+}
+
+// verifDelivered is one decoded delivery with the oracle's view of its
+// bytes, taken when it was decoded.
+type verifDelivered struct {
+	d           asserts.Assertion
+	how         string
+	exact, same *verifSigned
+	sigDec      []byte
+	bk          string
+}
+
+// pickTargets: which databases a delivery goes to and in which order.
+func (w *verifC18) pickTargets(why string) []verifTarget {
+	c := w.c
+	if len(w.stacked) == 0 {
+		return w.targets
+	}
+	base, stacked := w.targets[:2], w.targets[2:]
+	if why == "setup" {
+		return base
+	}
+	scope := c.Draw("scope", 4)
+	if why == "reissue" && scope == 3 {
+		scope = 1
+	}
+	switch scope {
+	case 1:
+		w.c.Count("probe:delivered-to-stacked-database-only")
+		return stacked
+	case 2:
+		return base
+	case 3:
+		return append(append([]verifTarget{}, stacked...), base...)
+	}
+	return w.targets
 }
 
 // verifErrClass keeps logs independent of scratch paths.
@@ -724,7 +882,7 @@ func verifValidAt(kv *verifKeyView, t time.Time) bool {
 // invalidity says why the statement forbids accepting authentic e in the
 // database described by v right now ("" if it does not).
 func (w *verifC18) invalidity(v *verifView, e *verifSigned) string {
-	kv := v.keys[e.key.id]
+	kv := v.key(e.key.id)
 	if kv == nil {
 		return "unknown-key"
 	}
@@ -747,12 +905,10 @@ func (w *verifC18) invalidity(v *verifView, e *verifSigned) string {
 	return ""
 }
 
-func (w *verifC18) judge(v *verifView, d asserts.Assertion, exact, same *verifSigned, how, op string, err error) {
+func (w *verifC18) judge(v *verifView, dl *verifDelivered, op string, err error) {
 	c := w.c
 	accepted := err == nil
-	content, sig := d.Signature()
-	dec, _ := verifDecodeSig(sig)
-	bk := verifBytesKey(content, dec)
+	exact, same, how, dec, bk := dl.exact, dl.same, dl.how, dl.sigDec, dl.bk
 	if exact == nil {
 		// not something the simulator signed
 		if !accepted {
@@ -800,7 +956,7 @@ func (w *verifC18) judge(v *verifView, d asserts.Assertion, exact, same *verifSi
 	}
 	if reason != "" {
 		w.fault("delivery:" + reason)
-		if kv := v.keys[e.key.id]; kv != nil {
+		if kv := v.key(e.key.id); kv != nil {
 			now := w.now()
 			if now.Equal(kv.until) {
 				c.Count("probe:checked-exactly-at-until")
@@ -814,7 +970,7 @@ func (w *verifC18) judge(v *verifView, d asserts.Assertion, exact, same *verifSi
 		w.accepted++
 		if reason != "" {
 			if c.Active("C18") {
-				kv := v.keys[e.key.id]
+				kv := v.key(e.key.id)
 				win := "none held"
 				if kv != nil {
 					win = fmt.Sprintf("key of %s valid [T0+%s, T0+%s) constraints=%d", kv.account, verifOff(kv.since), verifOff(kv.until), len(kv.cons))
@@ -824,7 +980,7 @@ func (w *verifC18) judge(v *verifView, d asserts.Assertion, exact, same *verifSi
 			return
 		}
 		c.Count("probe:valid-accepted")
-		if kv := v.keys[e.key.id]; kv != nil {
+		if kv := v.key(e.key.id); kv != nil {
 			if w.now().Equal(kv.since) {
 				c.Count("probe:accepted-exactly-at-since")
 			}
@@ -864,15 +1020,15 @@ func (w *verifC18) expectAccept(v *verifView, e *verifSigned, op string) bool {
 			return false
 		}
 	case asserts.AccountKeyType:
-		if e.authority != "canonical" || !v.accounts[e.akAccount] {
+		if e.authority != "canonical" || !v.hasAccount(e.akAccount) {
 			return false
 		}
 	}
 	if op == "add" {
-		if v.builtin[e.id] {
+		if v.isBuiltin(e.id) {
 			return false
 		}
-		if cur, have := v.cur[e.id]; have && e.rev <= cur {
+		if cur, have := v.maxRev(e.id); have && e.rev <= cur {
 			return false
 		}
 	}
@@ -882,7 +1038,10 @@ func (w *verifC18) expectAccept(v *verifView, e *verifSigned, op string) bool {
 func (w *verifC18) applyAccepted(v *verifView, e *verifSigned) {
 	v.cur[e.id] = e.rev
 	if e.akKey != nil {
-		old := v.keys[e.akKey.id]
+		old := v.key(e.akKey.id)
+		if v.base != nil {
+			w.c.Count("probe:account-key-revision-only-in-stacked-database")
+		}
 		v.keys[e.akKey.id] = &verifKeyView{since: e.akSince, until: e.akUntil, cons: e.akCons, account: e.akAccount}
 		if old != nil && (!old.since.Equal(e.akSince) || !old.until.Equal(e.akUntil)) {
 			w.c.Count("probe:account-key-revision-changed-window")
@@ -898,9 +1057,9 @@ func (w *verifC18) applyAccepted(v *verifView, e *verifSigned) {
 func (w *verifC18) findStored() {
 	c := w.c
 	e := w.led.list[c.Draw("find", len(w.led.list))]
-	for i, db := range w.st.dbs() {
-		v := w.views[i]
-		got, err := e.a.Ref().Resolve(db.Find)
+	for _, t := range w.targets {
+		v := t.v
+		got, err := e.a.Ref().Resolve(t.db().Find)
 		if err != nil {
 			c.Logf("find %s in %s -> %s", e.id, v.name, verifErrClass(err))
 			continue
@@ -909,7 +1068,7 @@ func (w *verifC18) findStored() {
 		c.Logf("find %s in %s -> rev %d", e.id, v.name, got.Revision())
 		c.Count("probe:find-after-deliveries")
 		if exact != nil {
-			if _, have := v.cur[e.id]; !have && !v.builtin[e.id] {
+			if _, have := v.maxRev(e.id); !have && !v.isBuiltin(e.id) {
 				if c.Active("C18") {
 					c.Violate("C18/stored-but-never-accepted", "%s: Find returns %s which no Add accepted", v.name, exact.label)
 				}
@@ -918,7 +1077,7 @@ func (w *verifC18) findStored() {
 		}
 		content, sig := got.Signature()
 		dec, _ := verifDecodeSig(sig)
-		if v.framed[verifBytesKey(content, dec)] {
+		if v.wasFramed(verifBytesKey(content, dec)) {
 			if c.Active("C18") {
 				c.Violate(verifF4Class, "%s: Find returns the re-framed encoding of %s that Add accepted earlier", v.name, same.label)
 			}
